@@ -539,6 +539,22 @@ func (h *Server) Digest() string {
 	return sb.String()
 }
 
+// Observation is everything the peer and the handlers can see, as text.
+func (h *Server) Observation() string {
+	var sb strings.Builder
+	for _, f := range h.Out {
+		fmt.Fprintf(&sb, "peer received %s %x\n", f.String(), f.Payload)
+	}
+	for _, c := range h.Calls {
+		fmt.Fprintf(&sb, "handler#%d saw %s %s host=%s headers=%v body=%q returned=%v\n", c.Idx, c.Req.Method, c.Req.URI, c.Req.Host, c.Req.Headers, c.Req.Body, c.Returned)
+	}
+	for _, l := range h.Log {
+		fmt.Fprintf(&sb, "log: %s\n", firstLine(l))
+	}
+	fmt.Fprintf(&sb, "returned=%v err=%v closed=%v panics=%v recovered=%v live=%v\n", h.Returned, h.ServeErr, h.C.Closed(), h.S.Panics, h.S.Recovered, h.S.LiveNames())
+	return sb.String()
+}
+
 // Panicked reports logger lines produced by a recover() in the server, and
 // unrecovered panics caught by the scheduler.
 func (h *Server) Panicked() []string {
